@@ -235,7 +235,7 @@ pub fn obs_digest_main(seed: u64, n: u64) -> ! {
 }
 
 fn run_digest(profile: &str, seed: u64, n: u64) -> Result<Vec<String>, String> {
-    let exe = format!("{}/harness/target/{}/vcheck", verif_dir(), profile);
+    let exe = format!("{}/{}/vcheck", target_dir(), profile);
     let out = std::process::Command::new(&exe).arg("--obs-digest").arg(seed.to_string()).arg(n.to_string()).output().map_err(|e| format!("cannot run {}: {}", exe, e))?;
     if !out.status.success() {
         return Err(format!("{} exited with {:?}", exe, out.status));
